@@ -367,4 +367,22 @@ func dischargeAll(obls []*Obligation, opts solveOpts, par int) {
 		}(o)
 	}
 	wg.Wait()
+	// last chance: an obligation that only timed out (no counter-model) is tried once more on its own, with a long
+	// limit, now that nothing else competes for the processors - a loaded machine must not turn a slow proof into an
+	// alarm.  Functions that already failed several obligations are not revisited, and at most 8 obligations are.
+	if !opts.all {
+		tried := 0
+		for _, o := range obls {
+			if o.Status != "unknown" || o.MustFail || o.KnownOpen || failedIn[o.Func] >= 4 || tried >= 8 {
+				continue
+			}
+			tried++
+			o2 := opts
+			o2.timeoutS = maxInt(60, opts.timeoutS*4)
+			o2.seed += 13
+			prev := o.Output
+			discharge(o, o2)
+			o.Output = prev + "\n[last-chance pass, " + fmt.Sprint(o2.timeoutS) + " s]\n" + o.Output
+		}
+	}
 }
